@@ -43,7 +43,9 @@ Allowed(e) ==
          \* 180 degrees = pi radians, with pi ~ 355/113 (8e-8)
          /\ Near(180 * 113 * e.vr, 355 * e.vd, 2 * 180 * 113 + 2 * 355 + Abs(e.vd) \div 30)
     \* below / above: the result compared with the bounds as f32 values, exactly
-    [] e.op = "wrap" -> e.panic = 0 /\ WrapOK(e.a, e.lo, e.hi, e.r, 2) /\ e.below = 0 /\ e.above = 0
+    \* (the upper end is reached by rounding only: an angle EXACTLY a whole number of lengths from the lower end - e.exact -
+    \* wraps to the lower end, not to the upper one - e.athi)
+    [] e.op = "wrap" -> e.panic = 0 /\ WrapOK(e.a, e.lo, e.hi, e.r, 2) /\ e.below = 0 /\ e.above = 0 /\ (e.exact = 1 => e.athi = 0)
     [] e.op = "arith" ->
          /\ e.panic = 0
          /\ Near(e.add, e.a + e.b, 3) /\ Near(e.sub, e.a - e.b, 3) /\ Near(e.neg, -e.a, 2)
